@@ -78,9 +78,23 @@ class Case:
   def text(self): return self.program.text()
 
 
+_WARMED = [False]
+
+
+def warm_up_other_dialects():
+  """A SQLite compilation must not depend on which dialects were compiled earlier in the process: every worker first compiles one
+  program for the other engines (their function templates, type machinery and library rules get loaded)."""
+  if _WARMED[0]: return
+  _WARMED[0] = True
+  for eng in ('trino', 'psql', 'bigquery', 'clickhouse', 'duckdb'):
+    t = '@Engine("%s");\nA(1, "a,b", [1, 2]);\nT(ArrayConcat(l, l), Split(s, ","), Size(l), Greatest(x, 2), Least(x, 2), ToString(x), Sort(l), Element(l, 0), Range(2), Log(x)) :- A(x, s, l);\n' % eng
+    impl.Compiled(t).sql('T')
+
+
 class Harness:
   def __init__(self):
     impl.accelerate_library_parse()
+    warm_up_other_dialects()
     self.conns = {}
     self.stats = dict(programs=0, executions=0, compiles=0, nontrivial=0, comparisons=0, unsupported=0)
     self.viol = []
@@ -99,6 +113,7 @@ class Harness:
   def expected(self, case, pred, db, rules=None):
     tables = {t: (SCHEMAS[case.schema][t], [tuple(r) for r in rows]) for t, rows in db.items()}
     for t, cols in SCHEMAS[case.schema].items(): tables.setdefault(t, (cols, []))
+    for t in list(tables): tables['main.' + t] = tables[t]        # the schema-qualified spelling of the same table
     ev = refsem.Evaluator(rules if rules is not None else case.program.rules(), tables, depth=case.depth, depths=case.depths, ol=getattr(case, 'ol', None))
     return ev.rows(pred)
 
